@@ -68,11 +68,12 @@ def rule_arms(ctx):
     rets = [canon(m.rvalue_expr(d[3])) for d in m.ret_defs() if d[0] == 'assign']
     ok_ret = [r for r in rets if r.startswith('Result::Ok')]
     exp_parts = {'((a3 as PushBytes).0 as usize)', '0'} | {'read_uint(%s, %d)?' % ('ARG', w) for w in (1, 2, 4)}
+    # the Ok payloads, whether they are joined in one variable (phi) or returned arm by arm
     got = set()
-    if len(ok_ret) == 1:
-        inner = ok_ret[0][len('Result::Ok{0: '):-1]
-        if inner.startswith('phi('):
-            got = set(re.sub(r'read_uint\(.*?, (\d)\)\?', r'read_uint(ARG, \1)?', x) for x in inner[4:-1].split(' | '))
+    for r in ok_ret:
+        inner = r[len('Result::Ok{0: '):-1]
+        parts = inner[4:-1].split(' | ') if inner.startswith('phi(') else [inner]
+        got |= set(re.sub(r'read_uint\(.*?, (\d)\)\?', r'read_uint(ARG, \1)?', x) for x in parts)
     ctx.check('arms', 'length-sources', got == exp_parts, m, 'push length = %s' % sorted(got))
     # PushBytes(n): the arm is taken on the PushBytes class
     for d in m.defs().items():
@@ -89,6 +90,9 @@ def rule_arms(ctx):
         for d in ds:
             if d[0] == 'assign' and canon(m.rvalue_expr(d[3])) == '0' and m.local_ty(l) == 'usize':
                 z.append(guards_at(m, d[1]))
+    for d in m.ret_defs():
+        if d[0] == 'assign' and canon(m.rvalue_expr(d[3])) == 'Result::Ok{0: 0}':
+            z.append(guards_at(m, d[1]))
     ctx.check('arms', 'default-arm-zero', len(z) == 1 and any('a2.code notin {76,77,78}' in g for g in z[0]), m, 'other opcodes -> 0 under %s' % z)
     # the caller classifies the opcode at self.ip with the Legacy context
     ev = prog.one(EV + 'eval')
@@ -179,11 +183,13 @@ def rule_le(ctx):
     prog = ctx.prog
     r = prog.one(EV + 'read_uint')
     ctx.touch(r)
-    rets = [(canon(r.rvalue_expr(d[3])), guards_at(r, d[1])) for d in r.ret_defs() if d[0] == 'assign']
-    item = 'each(take(enumerate(a1), a2))'
-    le = 'Result::Ok{0: sum(((%s.1 as usize) << (%s.0 * 8)))}' % (item, item)
+    rets = [(canon(r.rvalue_expr(d[3]) if d[0] == 'assign' else r.call_expr(d[2])), [x for x in guards_at(r, d[1]) if 'next(' not in x]) for d in r.ret_defs()]
+    # the first `size` bytes with their positions: enumerate().take(size) over the slice, or enumerate() over its
+    # first `size` bytes
+    items = ['each(take(enumerate(a1), a2))', 'each(enumerate(a1[RangeTo::RangeTo{end: a2}]))']
+    les = ['Result::Ok{0: sum(((%s.1 as usize) << (%s.0 * 8)))}' % (it, it) for it in items]
     ok = [x for x in rets if x[0].startswith('Result::Ok')]
-    good = len(ok) == 1 and (ok[0][0] == le or 'from_le_bytes' in ok[0][0])
+    good = len(ok) == 1 and (ok[0][0] in les or 'from_le_bytes' in ok[0][0])
     ctx.check('le', 'little-endian-combination', good, r, 'read_uint = %s' % (ok[0][0] if ok else rets))
     err = [x for x in rets if x[0] == 'Result::Err{0: ScriptError::UnexpectedEof{}}']
     ctx.check('le', 'short-operand-is-eof', len(err) == 1 and err[0][1] == ['len(a1) < a2'], r, 'Err(UnexpectedEof) under %s' % (err[0][1] if err else '?'))
